@@ -70,3 +70,29 @@ Theorem C01_session_final_is_last_accepted :
 Proof. exact session_final_is_last_accepted. Qed.
 
 Print Assumptions C01_session_final_is_last_accepted.
+
+(* ---- a test that CHANGES the testcase file while it runs (Model/Scribble.v: `scr k file` = what test k leaves at
+   the path; run_s = run with such a test).  Lithium never reads the file back, so the run is the same run; what it
+   keeps, logs and restores is the candidate it wrote, never what the test left behind ---- *)
+From Lithium Require Import Scribble ScribbleProofs.
+
+(* C01 for such tests: if the original was accepted (and there is something to reduce), the run ends
+   with the last accepted version on disk *)
+Theorem C01_final_is_last_accepted_test_changes_file :
+  forall S (strat : strategy S) verdict scr fuel tc0 file0 rc w,
+    content tc0 = file0 ->
+    run_s strat verdict scr fuel tc0 file0 = Finished rc w ->
+    (verdict 1 file0 = Yes /\ tc_len tc0 <> 0) \/ scr 1 file0 = None \/ tc_len tc0 = 0 ->
+    w_file w = last_accepted (chron w) file0.
+Proof. exact run_s_final_is_last_accepted. Qed.
+
+(* the rejected original: nothing is written by Lithium, so what the test did to its own file stays
+   (non-vacuity of the side condition in the C01 statement above) *)
+Theorem scribble_rejected_original_stays :
+  exists (strat : strategy unit) verdict scr tc0 file0 w,
+    content tc0 = file0 /\ run_s strat verdict scr 5 tc0 file0 = Finished 1 w /\
+    w_file w <> last_accepted (chron w) file0.
+Proof. exact run_s_rejected_original_example. Qed.
+
+Print Assumptions C01_final_is_last_accepted_test_changes_file.
+Print Assumptions scribble_rejected_original_stays.
